@@ -87,8 +87,13 @@ def gen_model(ctx, rng, bases=None, opts=None, want_tall=True, max_modes=None, f
         except (ValueError, TypeError):
             pass
         model = _reset_n_sensors(model)
+    # the caller's training array: any memory layout, and the caller goes on using (overwriting) it after the fit –
+    # a fitted model is a function of the data at fit time
+    layout = rng.choice(["C", "C", "F", "T", "strided"])
+    desc["layout"] = layout
+    Xin = models.laid_out(X, layout)
     try:
-        model.fit(X.copy(), quiet=True, seed=desc["seed"])
+        model.fit(Xin, quiet=True, seed=desc["seed"])
     except (ValueError, TypeError):
         return None          # e.g. CCQR / GQR refuse integer basis matrices (in-place float update of an int array)
     desc["history"].append("fit(X)")
@@ -107,7 +112,9 @@ def gen_model(ctx, rng, bases=None, opts=None, want_tall=True, max_modes=None, f
         except Exception:
             pass
         model = _reset_n_sensors(model, keep=True)
-    return {"model": model, "desc": desc, "X": X.astype(float), "B": np.array(model.basis_matrix_, dtype=float)}
+    B = np.array(model.basis_matrix_, dtype=float)       # the basis as fitted …
+    Xin[...] = 3                                          # … then the caller re-uses its buffer
+    return {"model": model, "desc": desc, "X": X.astype(float), "B": B}
 
 
 def _reset_n_sensors(model, keep=False):
@@ -150,7 +157,8 @@ def rebuild(desc):
         except ValueError:
             pass
         model = _reset_n_sensors(model)
-    model.fit(X.copy(), quiet=True, seed=desc["seed"])
+    Xin = models.laid_out(X, desc.get("layout", "C"))
+    model.fit(Xin, quiet=True, seed=desc["seed"])
     if desc.get("update_modes"):
         nf = X.shape[1]
         m = model.basis_matrix_.shape[1]
@@ -162,7 +170,9 @@ def rebuild(desc):
                 pass
         model.update_n_basis_modes(desc["update_modes"])
         model = _reset_n_sensors(model, keep=True)
-    return {"model": model, "desc": desc, "X": X.astype(float), "B": np.array(model.basis_matrix_, dtype=float)}
+    B = np.array(model.basis_matrix_, dtype=float)
+    Xin[...] = 3
+    return {"model": model, "desc": desc, "X": X.astype(float), "B": B}
 
 
 def kappa(M):
